@@ -504,8 +504,12 @@ def apply_hoist(toks, hoist, hits):
     st = texts(toks_of(start))
     hay = texts(toks)
     k = find_sub(hay, st)
-    if k < 0 or find_sub(hay, st, k + 1) >= 0:
-        raise LostAnchor('%s: hoist anchor `%s` not found exactly once' % (rule, start))
+    if k < 0:
+        # the construct the hoist exists for is not in the source (any more): nothing to lift, the text goes to
+        # the verifier as it is
+        return toks, None
+    if find_sub(hay, st, k + 1) >= 0:
+        raise LostAnchor('%s: hoist anchor `%s` found more than once' % (rule, start))
     if kind == 'stmt':
         e = _stmt_end(toks, k, len(toks))
         if toks[e - 1].text != ';':
@@ -760,7 +764,10 @@ def generate(unit, canary=False, expand=True):
                 stoks = rule_r1_r2(stoks, hits)
             for h in hoists:
                 stoks, cut = apply_hoist(stoks, (h[0], h[1], h[2], h[3]), hits)
-                hoist_bodies[h[4]] = cut
+                if cut is None:
+                    hoist_bodies.setdefault(h[4], [])
+                    continue
+                hoist_bodies[h[4]] = hoist_bodies.get(h[4], []) + cut
                 unit.hoists.append({'helper': h[4], 'rule': h[0], 'from': rel + ' :: ' + ' :: '.join(path),
                                     'text': render(cut).strip()})
             for s in subs:
